@@ -64,11 +64,16 @@ def collectMethods : Tm → List (FunKind × Name × List Name × Tm)
   | .seq _ rest => collectMethods rest
   | _ => []
 
+/-- Laythe numbers are f64: integer arithmetic is exact only up to 2^53.  A result beyond that is outside the fragment
+(`fail:range`: the run is not judged), so that the unbounded integers of this interpreter never disagree with the VM for
+a reason that has nothing to do with scoping. -/
+def inRange (r : Int) : Ctl := if r.natAbs ≤ 9007199254740992 then .norm (.num r) else .fail "range"
+
 def arith (k : OpKind) (a b : Val) : Ctl :=
   match k, a, b with
-  | .add, .num x, .num y => .norm (.num (x + y))
-  | .sub, .num x, .num y => .norm (.num (x - y))
-  | .mul, .num x, .num y => .norm (.num (x * y))
+  | .add, .num x, .num y => inRange (x + y)
+  | .sub, .num x, .num y => inRange (x - y)
+  | .mul, .num x, .num y => inRange (x * y)
   | .lt, .num x, .num y => .norm (.bool (x < y))
   | .eq, .num x, .num y => .norm (.bool (x == y))
   | .eq, .bool x, .bool y => .norm (.bool (x == y))
